@@ -185,6 +185,27 @@ def annotate(src_text, wanted):
     return out
 
 
+def extract_function(src_text, fn):
+    """Full text of the definition of function fn (from the start of its declaration line to the
+    closing brace), taken verbatim from the source.  Used where a harness stubs the rest of a
+    file but needs one real function of it."""
+    t = _strip_comments_keep_layout(src_text)
+    spans = {name: (s0, e0) for name, s0, e0 in function_spans(t)}
+    if fn not in spans:
+        raise AnnotateError('function %s not found for extraction' % fn)
+    s0, e0 = spans[fn]
+    # walk back to the start of the declaration: after the previous ';' or '}' or preprocessor line
+    k = s0
+    while k > 0 and t[k - 1] not in ';}':
+        k -= 1
+    # skip leading blank space and any preprocessor lines
+    head = src_text[k:e0 + 1]
+    lines = head.split('\n')
+    while lines and (not lines[0].strip() or lines[0].lstrip().startswith('#')):
+        lines.pop(0)
+    return '\n'.join(lines) + '\n'
+
+
 def count_loops(src_text, fn):
     t = _strip_comments_keep_layout(src_text)
     spans = {name: (s, e) for name, s, e in function_spans(t)}
